@@ -19,11 +19,22 @@ Placements ==
    mainF : {<<>>, <<"A">>, <<"A", "B">>}, cliF : {<<>>, <<"A">>}, hasCliF : BOOLEAN,
    envF : {<<"B">>, <<"B", "A">>}, envMode : {"plain", "plus"}, childA : {<<>>, <<"C">>},
    flagsCli : {{}}, flagsMain : {{}, {"dsf"}}, noGit : {FALSE}]
+  \cup   \* features listed twice; a custom section named like a builtin feature that does not set the option itself
+  [cli : {FALSE}, gcp : {FALSE}, main : {FALSE}, custom : SUBSET {"A", "B", "nav"},
+   mainF : {<<>>, <<"A", "B", "A">>, <<"B", "A", "B">>, <<"nav", "A">>, <<"A", "nav">>},
+   cliF : {<<>>, <<"A", "B", "A">>, <<"B", "A", "B">>, <<"A", "nav", "A">>}, hasCliF : BOOLEAN,
+   envF : {<<"A">>, <<"B">>}, envMode : {"none", "plus"}, childA : {<<>>, <<"nav">>, <<"B">>},
+   flagsCli : {{}, {"nav"}, {"nav", "dsf"}}, flagsMain : {{}, {"nav"}, {"nav", "dh"}}, noGit : {FALSE}]
+  \cup   \* --no-gitconfig with every gitconfig source set
+  [cli : BOOLEAN, gcp : BOOLEAN, main : BOOLEAN, custom : SUBSET {"A", "dsf"},
+   mainF : {<<>>, <<"A">>}, cliF : {<<>>, <<"A">>, <<"dsf", "A">>, <<"dsf", "dh", "dsf">>, <<"dh", "dsf", "dh">>}, hasCliF : BOOLEAN,
+   envF : {<<"A">>}, envMode : {"none", "plus"}, childA : {<<>>, <<"dsf">>},
+   flagsCli : {{}, {"dh"}}, flagsMain : {{}, {"dsf"}}, noGit : {TRUE}]
 Sane(q) == (q.hasCliF <=> q.cliF # <<>>)
 Init == p \in {q \in Placements : Sane(q)} /\ done = FALSE
 Next == ~done /\ done' = TRUE /\ UNCHANGED p
 Spec == Init /\ [][Next]_vars
-Orders == IF SortedFlags THEN {SelectSeq(<<"dh", "dsf">>, LAMBDA f : f \in p.flagsMain)} ELSE SeqsOf(p.flagsMain)
+Orders == IF SortedFlags THEN {SelectSeq(FlagOrder, LAMBDA f : f \in p.flagsMain)} ELSE SeqsOf(p.flagsMain)
 WithinDocumented == \A o \in Orders : ImplValue(p, o) \in Allowed(p)
 Deterministic == \A o1, o2 \in Orders : ImplValue(p, o1) = ImplValue(p, o2)
 Replay == done \/ ~Emit \/ PrintT(<<"REPLAY", ToJson([p |-> [p EXCEPT !.custom = SetToSeq(@), !.flagsCli = SetToSeq(@), !.flagsMain = SetToSeq(@)],
